@@ -30,7 +30,7 @@ use vgov::pop::{self, Built, N, POP};
 
 const MATRIX_PERMS: &[&str] = &[
     "discover", "read", "search", "project", "read_history", "export", "read_raw_origin", "create",
-    "update", "purge", "declassify", "manage_policy", "manage_grants", "read_audit",
+    "update", "archive", "purge", "declassify", "manage_policy", "manage_grants", "read_audit",
 ];
 
 /// The resources of the decision matrix: the Space, every element, and a few
@@ -118,6 +118,7 @@ struct Tally {
     battery_answers: u64,
     matrix_decisions: u64,
     overdenied: u64,
+    consequent: u64,
     gate_unspecified: u64,
     nontrivial: Vec<u64>,
     failures: Vec<Failure>,
@@ -161,27 +162,61 @@ async fn eval_config(
             .expect("machinery: effective_authority of a registered Principal");
 
         // --- decision matrix: AuthModel vs implementation -----------------
+        let mut cells: Vec<(&str, &Res, bool)> = Vec::new();
+        let mut wrong: Vec<usize> = Vec::new();
         for perm_name in MATRIX_PERMS {
             let perm = Permission::parse(perm_name).expect("machinery: known permission");
             for (mres, ires) in &resources {
                 let model = cfg.model.decide(who, strength, perm_name, mres);
                 let imp = authority.authorize(perm, ires, &auth).is_permitted();
                 tally.matrix_decisions += 1;
+                cells.push((perm_name, mres, imp));
                 match (&model, imp) {
                     (Dec::GateUnspecified, _) => tally.gate_unspecified += 1,
-                    (Dec::Deny, true) => tally.failures.push(Failure {
-                        kind: "authz",
-                        family: format!("{}@{}", perm_name, if mres.is_space() { "space" } else { "element" }),
-                        config: config.to_vec(),
-                        who,
-                        item: format!("{perm_name} on {}", if mres.is_space() { "the Space".to_string() } else if mres.key.is_empty() { format!("{mres:?}") } else { mres.key.clone() }),
-                        detail: json!({"model": "deny", "implementation": "allow", "resource": mres}),
-                    }),
+                    (Dec::Deny, true) => wrong.push(cells.len() - 1),
                     (Dec::Allow { .. }, false) => tally.overdenied += 1,
                     _ => {}
                 }
             }
         }
+        if !wrong.is_empty() {
+            // root cause: the single model rule whose removal reproduces the
+            // implementation's whole matrix for this Principal (else the first
+            // one that flips the first wrong cell, marked "~").
+            let mut label = None;
+            for (name, x) in GovModel::relaxations() {
+                let same = cells.iter().all(|(perm, mres, imp)| match cfg.model.decide_relaxed(who, strength, perm, mres, &x) {
+                    Dec::GateUnspecified => true,
+                    d => d.allowed() == *imp,
+                });
+                if same {
+                    label = Some(name);
+                    break;
+                }
+            }
+            let label = label.unwrap_or_else(|| {
+                let (perm, mres, _) = cells[wrong[0]];
+                GovModel::relaxations()
+                    .into_iter()
+                    .find(|(_, x)| cfg.model.decide_relaxed(who, strength, perm, mres, x).allowed())
+                    .map(|(n, _)| format!("~{n}"))
+                    .unwrap_or_else(|| "unexplained".to_string())
+            });
+            let (perm, mres, _) = cells[wrong[0]];
+            tally.failures.push(Failure {
+                kind: "authz",
+                family: label,
+                config: config.to_vec(),
+                who,
+                item: format!("{perm} on {}", if mres.is_space() { "the Space".to_string() } else if mres.key.is_empty() { format!("{mres:?}") } else { mres.key.clone() }),
+                detail: json!({
+                    "model": "deny", "implementation": "allow", "resource": mres,
+                    "all_disagreements": wrong.iter().map(|i| format!("{} on {}", cells[*i].0, if cells[*i].1.is_space() { "Space" } else if cells[*i].1.key.is_empty() { "synthetic" } else { cells[*i].1.key.as_str() })).collect::<Vec<_>>(),
+                }),
+            });
+        }
+
+        let matrix_failed = tally.failures.iter().any(|f| f.kind == "authz" && f.who == who && f.config == config);
 
         // --- readable set and masks ------------------------------------------
         let mut readable = [false; N];
@@ -225,7 +260,7 @@ async fn eval_config(
                     continue;
                 }
             }
-            let (command, actual, raw) = battery::run_one(&session, built, item).await;
+            let (command, actual, raw) = battery::run_one(&session, built, item, only.is_some()).await;
             tally.battery_answers += 1;
             let actual_text = actual.main.to_string();
             let gate: Vec<Dec> = item.perms.iter().map(|p| cfg.model.decide(who, strength, p, &Res::space())).collect();
@@ -248,6 +283,16 @@ async fn eval_config(
             } else {
                 match item.oracle {
                     Oracle::Taint => {}
+                    Oracle::SameAsAbsent => {
+                        let idx = pop::index_of(item.probe);
+                        if !readable[idx] {
+                            let ghost = battery::without(built, item.probe);
+                            let (_, never, _) = battery::run_one(&session, &ghost, item, false).await;
+                            if never.main != actual.main {
+                                fail = Some(("differs", json!({"same_command_naming_a_never_written_id": never.main})));
+                            }
+                        }
+                    }
                     Oracle::Eq => {
                         if actual.main != expected[index].main {
                             fail = Some(("differs", json!({})));
@@ -272,8 +317,25 @@ async fn eval_config(
                     }
                 }
             }
+            if fail.is_some() && matrix_failed && only.is_none() {
+                // a consequence of the decision disagreement already reported for
+                // this configuration and Principal
+                tally.consequent += 1;
+                continue;
+            }
             if let Some((kind, mut detail)) = fail {
-                let family = if kind == "score" { format!("{}_SCORE", item.family) } else { item.family.to_string() };
+                let cause = match (readable.iter().any(|b| !*b), masked.iter().any(|b| *b)) {
+                    (true, false) | (false, false) => "visibility",
+                    (false, true) => "mask",
+                    (true, true) => "mixed",
+                };
+                let family = if item.oracle == Oracle::Taint {
+                    item.family.to_string()
+                } else if kind == "score" {
+                    format!("{}_SCORE|{cause}", item.family)
+                } else {
+                    format!("{}|{cause}", item.family)
+                };
                 let kind = if kind == "score" { "differs" } else { kind };
                 detail["command"] = json!(command);
                 detail["answer"] = actual.main.clone();
@@ -372,7 +434,7 @@ fn main() {
                     item.label, here[i].main, there[i].main
                 ));
             }
-            if here[i].main.get("error").is_some() {
+            if here[i].main.get("error").is_some() && item.oracle != Oracle::SameAsAbsent {
                 eprintln!("battery item {} fails for the owner: {}", item.label, here[i].main);
                 bad += 1;
             }
@@ -398,6 +460,7 @@ fn main() {
     let deadline = std::time::Instant::now() + std::time::Duration::from_secs_f64(run.remaining_s() * 0.92);
 
     'depths: for depth in 1..=max_depth {
+        let t_depth = std::time::Instant::now();
         let mut work: Vec<Vec<Action>> = Vec::new();
         for seq in sequences(alphabet, depth) {
             let Some(state) = model_state(&seq) else {
@@ -414,6 +477,7 @@ fn main() {
         }
         // chunks share a Nexus; membership and order inside a chunk are fixed,
         // so the verdict does not depend on thread scheduling.
+        eprintln!("depth {depth}: model pre-pass {:.1}s", t_depth.elapsed().as_secs_f64());
         let chunk_len = 24;
         let chunks: Vec<(usize, Vec<Vec<Action>>)> = work.chunks(chunk_len).map(|c| c.to_vec()).enumerate().collect();
         let items_ref = &items;
@@ -432,6 +496,7 @@ fn main() {
             });
             (true, tally)
         });
+        eprintln!("depth {depth}: {} configurations, {:.1}s", work.len(), t_depth.elapsed().as_secs_f64());
         let mut complete = true;
         for (done, t) in results {
             complete &= done;
@@ -440,6 +505,7 @@ fn main() {
             totals.battery_answers += t.battery_answers;
             totals.matrix_decisions += t.matrix_decisions;
             totals.overdenied += t.overdenied;
+            totals.consequent += t.consequent;
             totals.gate_unspecified += t.gate_unspecified;
             totals.nontrivial.extend(t.nontrivial);
             totals.failures.extend(t.failures);
@@ -473,6 +539,7 @@ fn main() {
     run.add("pruned_noop_sequences", pruned_noop);
     run.add("pruned_known_state_sequences", pruned_state);
     run.add("overdenied_not_a_violation", totals.overdenied);
+    run.add("battery_failures_explained_by_a_decision_disagreement", totals.consequent);
     run.add("gate_unspecified_skipped", totals.gate_unspecified);
     run.set("completed_depth", json!(completed_depth));
     run.set("alphabet", json!(alphabet.iter().map(|a| a.name()).collect::<Vec<_>>()));
@@ -490,34 +557,39 @@ fn main() {
     run.assume("AuthModel (vgov/src/model.rs) restates docs/anda_cognitive_nexus.md §10 and the rows.rs/decision.rs doc comments for the bounded alphabet; answers are compared after the canonicalisation documented in vgov/src/battery.rs (ids -> logical keys; clocks, tx ids and Space sequence numbers dropped)");
     run.assume("configurations of one chunk share a Nexus and use fresh Principal/group/policy ids; a denial where AuthModel allows (over-denial) is counted, not reported: C19 is about disclosure");
 
-    // minimal configurations per (kind, family): a failure is reported for the
-    // smallest sets of action kinds that produce it.
+    // one violation per (kind, family[, cause]); the replay is the shortest
+    // (then lexicographically first) failing configuration of the group.
     let mut groups: BTreeMap<(String, String), Vec<&Failure>> = BTreeMap::new();
     for f in &totals.failures {
         groups.entry((f.kind.to_string(), f.family.clone())).or_default().push(f);
     }
-    for ((kind, family), fails) in groups {
-        let sets: BTreeSet<BTreeSet<Action>> = fails.iter().map(|f| f.config.iter().copied().collect()).collect();
-        let minimal: Vec<&BTreeSet<Action>> = sets.iter().filter(|s| !sets.iter().any(|t| t != *s && t.is_subset(s))).collect();
-        for set in minimal {
-            let mut reps: Vec<&&Failure> = fails.iter().filter(|f| f.config.iter().copied().collect::<BTreeSet<_>>() == *set).collect();
-            reps.sort_by_key(|f| (f.config.len(), f.config.clone(), f.who, f.item.clone()));
-            let f = reps[0];
-            let names: Vec<String> = set.iter().map(|a| a.name()).collect();
-            let count = fails.len();
-            run.violation(Violation {
-                signature: format!("C19|{kind}|{family}|{}", names.join("+")),
-                summary: format!(
-                    "{kind} in {family}: after control actions {:?}, p{} ({}) — {} ({} failing cases in this family)",
-                    f.config.iter().map(|a| a.name()).collect::<Vec<_>>(), f.who, f.item,
-                    serde_json::to_string(&f.detail).unwrap_or_default().chars().take(700).collect::<String>(), count
-                ),
-                replay: json!({
-                    "config": f.config.iter().map(|a| a.name()).collect::<Vec<_>>(),
-                    "principal": f.who, "item": f.item, "kind": kind, "detail": f.detail,
-                }),
-            });
+    let pure: BTreeSet<(String, String)> = groups
+        .keys()
+        .filter(|(_, fam)| !fam.ends_with("|mixed"))
+        .map(|(k, fam)| (k.clone(), fam.rsplit_once('|').map(|x| x.0.to_string()).unwrap_or(fam.clone())))
+        .collect();
+    for ((kind, family), mut fails) in groups {
+        if let Some((base, "mixed")) = family.rsplit_once('|') {
+            // hidden elements and a mask at once: reported only when neither alone fails
+            if pure.contains(&(kind.clone(), base.to_string())) {
+                continue;
+            }
         }
+        fails.sort_by_key(|f| (f.config.len(), f.config.clone(), f.who, f.item.clone()));
+        let f = fails[0];
+        eprintln!("group {kind} {family}: {} cases; first: {:?} p{} {}", fails.len(), f.config, f.who, f.item);
+        run.violation(Violation {
+            signature: format!("C19|{kind}|{family}"),
+            summary: format!(
+                "{kind} in {family}: after control actions {:?}, p{} ({}) — {} ({} failing cases in this group)",
+                f.config.iter().map(|a| a.name()).collect::<Vec<_>>(), f.who, f.item,
+                serde_json::to_string(&f.detail).unwrap_or_default().chars().take(900).collect::<String>(), fails.len()
+            ),
+            replay: json!({
+                "config": f.config.iter().map(|a| a.name()).collect::<Vec<_>>(),
+                "principal": f.who, "item": f.item, "kind": kind, "detail": f.detail,
+            }),
+        });
     }
     run.finish();
 }
